@@ -203,6 +203,22 @@ def enc_active(d) -> str:
     return "a:" + "/".join(enc_list(d[k]) for k in ("core", "block", "inline", "inline2"))
 
 
+FACADE_BAD: list | None = []
+
+
+def facade_unknown_ok(preset, op, names, ig) -> bool:
+    from markdown_it import MarkdownIt
+
+    md = MarkdownIt(preset)
+    known = {x for v in md.get_all_rules().values() for x in v}
+    try:
+        getattr(md, op)(list(names), ig)
+        raised = False
+    except ValueError:
+        raised = True
+    return raised == (any(x not in known for x in names) and not ig)
+
+
 def run_facade(rng, preset: str, maxlen: int):
     from markdown_it import MarkdownIt
 
@@ -217,24 +233,23 @@ def run_facade(rng, preset: str, maxlen: int):
             ident[id(r.fn)] = base + i
     ops, outs = [], []
     n = rng.randint(1, maxlen)
+    known = {x for v in md.get_all_rules().values() for x in v}
     for _ in range(n):
         k = rng.random()
-        if k < 0.35:
+        if k < 0.7:
+            en = k < 0.35
             ns, ig = facade_names(rng, md), rng.random() < 0.3
-            ops.append(f"en:{enc_list(ns)}:{1 if ig else 0}")
+            ops.append(f"{'en' if en else 'dis'}:{enc_list(ns)}:{1 if ig else 0}")
             try:
-                md.enable(ns, ig)
+                (md.enable if en else md.disable)(ns, ig)
                 outs.append("u")
             except Exception as e:
                 outs.append(_exc_tag(e))
-        elif k < 0.7:
-            ns, ig = facade_names(rng, md), rng.random() < 0.3
-            ops.append(f"dis:{enc_list(ns)}:{1 if ig else 0}")
-            try:
-                md.disable(ns, ig)
-                outs.append("u")
-            except Exception as e:
-                outs.append(_exc_tag(e))
+            # oracle (independent of the model): an unknown name is rejected unless asked to ignore it
+            unknown = [x for x in ns if x not in known]
+            if (outs[-1] != "u") != (bool(unknown) and not ig) and FACADE_BAD is not None:
+                FACADE_BAD.append({"preset": preset, "op": "enable" if en else "disable", "names": ns, "ignoreInvalid": ig,
+                                   "outcome": outs[-1], "unknown": unknown})
         elif k < 0.8:
             ops.append("active")
             outs.append(enc_active(md.get_active_rules()))
@@ -306,6 +321,7 @@ def probe_dispatch(md):
 
 def run(ctx: Ctx) -> None:
     quick = ctx.quick()
+    del FACADE_BAD[:]
     nh = 1500 if quick else 40000
     maxlen = 40 if quick else 400
     rng = ctx.rng
@@ -371,6 +387,9 @@ def run(ctx: Ctx) -> None:
                                  f"probe parse dispatched {log[ch]} on chain {ch} but active rules are {want[ch]}",
                                  {"request": line, "chain": ch, "dispatched": log[ch], "active": want[ch]})
                         break
+        for b in (FACADE_BAD or [])[:20]:
+            ctx.fail("unknown-name-not-rejected", f"MarkdownIt.{b['op']}({b['names']}, ignoreInvalid={b['ignoreInvalid']}) ended with "
+                     f"{b['outcome']!r} although unknown names = {b['unknown']}", b)
         ctx.cov["facade_histories"] = len(fl)
         ctx.cov["probe_parses"] = nprobe
         if fl:
@@ -404,10 +423,24 @@ def search(ctx: Ctx):
             if bad is not None:
                 return Finding("applied!=reported", "rules applied differ from rules reported as active",
                                {"history": [list(o) for o in ops], **bad})
+    # façade: every pair (known name, unknown name) in both orders, and singletons
+    from markdown_it import MarkdownIt
+    for preset in ("commonmark", "js-default", "zero"):
+        names = sorted({x for v in MarkdownIt(preset).get_all_rules().values() for x in v})
+        for op in ("enable", "disable"):
+            for ig in (False, True):
+                cands = [["nope"]] + [[n_, "nope"] for n_ in names] + [["nope", n_] for n_ in names] + [[n_] for n_ in names]
+                cands += [[a_, b_, "nope"] for a_ in names[:6] for b_ in names[-6:]]
+                for ns in cands:
+                    if not facade_unknown_ok(preset, op, ns, ig):
+                        return Finding("unknown-name-not-rejected", f"MarkdownIt.{op}({ns}, ignoreInvalid={ig}) mishandles the unknown name",
+                                       {"preset": preset, "op": op, "names": ns, "ignoreInvalid": ig})
     return None
 
 
 def replay(ctx: Ctx, obj: dict) -> bool:
+    if obj.get("kind") == "unknown-name-not-rejected":
+        return facade_unknown_ok(obj["preset"], obj["op"], obj["names"], obj["ignoreInvalid"])
     if "history" in obj:
         ops = [tuple(o) for o in obj["history"]]
         outs, bad, _ = run_impl(ops, None)
